@@ -135,7 +135,7 @@ def run(ctx, chk):
             chk.ob("C03.width", "%s width %d -> %s" % (name, w, enc.callee), ok, gw, fn=name, key="%s:%d" % (name, w), detail=det)
         chk.ob("C03.width", "%s covers all four widths" % name, widths_seen == {0, 1, 2, 3}, gw, fn=name, key="%s:all" % name,
                detail="arms for %s" % sorted(widths_seen))
-    chk.floor("C03.width", "width arms", nw, 12)
+    chk.floor("C03.width", "width arms", nw, 9)
 
     # ---- encoder tables
     encs = ER.public_encoders(prog)
@@ -205,7 +205,7 @@ def run(ctx, chk):
             chk.ob("C03.order", "%s path %d: %d member(s) in storage order" % (name, k, len(members)), oko, gw, fn=name,
                    key="%s:order:%s:%d" % (name, definite, len(members)),
                    detail="" if oko else "members %s, expected %s" % ([_canon_slot(s) for s in slots], exp), path=pa.block_lines() if not oko else None)
-    chk.floor("C03.framing", "successful composite paths", nfr, 20)
+    chk.floor("C03.framing", "successful composite paths", nfr, 12)
     # tag
     g = prog.fn("cbor_serialize_tag")
     tagged_off = prog.field_offset("cbor_item_t", "metadata") + prog.field_offset("_cbor_tag_metadata", "tagged_item")
@@ -232,7 +232,7 @@ def run(ctx, chk):
         return ext_cache[name]
     chk.rule("C03.simple", "assigned simple values decode; unassigned ones are outside the property's domain")
     nm = mirror(chk, "C03.mirror", "C03.simple", prog, eff, encs, by_byte, enumv, loader_ext)
-    chk.floor("C03.mirror", "encoder byte -> decoder arm links", nm, 250)
+    chk.floor("C03.mirror", "encoder byte -> decoder arm links", nm, 200)
     chk.exhaustive = True
 
 
